@@ -250,6 +250,17 @@ func ssoRender(c SSOCase, now time.Time) (obs.HTTPReq, *spsim.Signed, error) {
 				}
 			}
 			// children in the protocol namespace keep their prefix; redeclare it for them is not needed for the root check
+		case "issuer-other-ns":
+			// the only Issuer element is not the assertion namespace's: the protocol namespace (what the root element uses),
+			// or one nobody knows. The message has no saml:Issuer.
+			if is := tree.Child(world.NSSAML, "Issuer"); is != nil {
+				if d.Param == "protocol" {
+					is.Space, is.Prefix = tree.Space, tree.Prefix
+				} else {
+					is.Space, is.Prefix = "urn:example:not-saml", "x"
+					is.Declare("x", "urn:example:not-saml")
+				}
+			}
 		case "dup-issuer":
 			if is := tree.Child(world.NSSAML, "Issuer"); is != nil {
 				cp := is.Clone()
